@@ -87,7 +87,7 @@ type Person struct {
 	SubTags map[string]Val `json:"subTags,omitempty"`
 	// DeepTags are stored two levels deeper, under tags/sub/deep/<key> (symbol tags.sub.deep.<key>, four segments)
 	DeepTags map[string]Val `json:"deepTags,omitempty"`
-	NoTags  bool           `json:"noTags,omitempty"` // no tags bucket at all
+	NoTags   bool           `json:"noTags,omitempty"` // no tags bucket at all
 	// Staff: the person has child data in the "staff" child store (bucket ext_staff inside the person's bucket)
 	Staff bool `json:"staff,omitempty"`
 }
